@@ -2760,13 +2760,14 @@ class PGPKeyring(collections_abc.Container, collections_abc.Iterable, collection
 
         # this is an alias that already exists, but points to a key that is not already referenced by it
         else:
-            adepth = len(self._aliases) - len([None for m in self._aliases if alias in m]) - 1
-            # all alias maps have this alias, so increase total depth by 1
-            if adepth == -1:
+            # put the new link into a layer that does not hold this alias yet (adding a layer if they all do);
+            # _sort_alias then re-packs the layers in order, so which free layer is used does not matter
+            free = [m for m in self._aliases if alias not in m]
+            if not free:
                 self._aliases.appendleft({})
-                adepth = 0
+                free = [self._aliases[0]]
 
-            self._aliases[adepth][alias] = pkid
+            free[0][alias] = pkid
             self._sort_alias(alias)
 
     def _add_key(self, pgpkey):
